@@ -41,6 +41,10 @@ class HashLM(MixableSequentialLanguageModel):
         self.q = float(spec.get("q", 4))
         self.register_buffer("table", torch.tensor(spec["table"], dtype=torch.long).view(self.M, self.vocab_size))
         self.register_buffer("cond", torch.tensor(spec["cond"], dtype=torch.long).view(-1, self.vocab_size))
+        ninf = torch.zeros(self.M, self.vocab_size, dtype=torch.bool)
+        for st_, tok in spec.get("ninf", []):
+            ninf[int(st_), int(tok)] = True
+        self.register_buffer("ninf", ninf)
         self.cap = cap
         self.calls = 0
 
@@ -79,6 +83,8 @@ class HashLM(MixableSequentialLanguageModel):
             tok = torch.where(idx == 0, torch.full_like(tok, V), tok)
         new_state = (state * self.mult + tok + 1) % self.M
         logits = (self.table.index_select(0, new_state) + self.cond.index_select(0, cond)).to(torch.float32) / self.q
+        # optional zero-probability tokens (spec["ninf"] = [[state, token], ...])
+        logits = logits.masked_fill(self.ninf.index_select(0, new_state), float("-inf"))
         return logits, {"state": new_state, "cond": cond}
 
 
@@ -96,7 +102,9 @@ def py_state(spec: dict, tokens: Sequence[int]) -> int:
 def py_next_logits(spec: dict, cond: int, tokens: Sequence[int]) -> List[float]:
     q = float(spec.get("q", 4))
     s = py_state(spec, tokens)
-    return [(a + b) / q for a, b in zip(spec["table"][s], spec["cond"][cond])]
+    dead = {int(t) for st_, t in spec.get("ninf", []) if int(st_) == s}
+    return [float("-inf") if v in dead else (a + b) / q
+            for v, (a, b) in enumerate(zip(spec["table"][s], spec["cond"][cond]))]
 
 
 def log_softmax(xs: Sequence[float]) -> List[float]:
@@ -120,7 +128,7 @@ def py_chain(spec: dict, cond: int, tokens: Sequence[int]) -> float:
 # ------------------------------------------------------------------------- strategies
 
 
-def lm_specs(min_V=1, max_V=4, max_cond=3, q=4, lo=-12, hi=12, distinct_rows=True, min_cond=1):
+def lm_specs(min_V=1, max_V=4, max_cond=3, q=4, lo=-12, hi=12, distinct_rows=True, min_cond=1, zero_prob=False):
     """Strategy for HashLM specifications (plain JSON)."""
 
     @st.composite
@@ -136,6 +144,14 @@ def lm_specs(min_V=1, max_V=4, max_cond=3, q=4, lo=-12, hi=12, distinct_rows=Tru
         C = draw(st.integers(min_cond, max_cond))
         crow = st.lists(st.integers(-16, 16), min_size=V, max_size=V)
         cond = draw(st.lists(crow, min_size=C, max_size=C))
-        return {"V": V, "M": M, "mult": mult, "table": table, "cond": cond, "q": q}
+        spec = {"V": V, "M": M, "mult": mult, "table": table, "cond": cond, "q": q}
+        if zero_prob and V >= 2:
+            # some (state, token) pairs get probability exactly zero; every state keeps a live token
+            dead = []
+            for s_ in range(M):
+                toks = draw(st.lists(st.integers(0, V - 1), unique=True, max_size=V - 1))
+                dead.extend([s_, t] for t in toks)
+            spec["ninf"] = dead
+        return spec
 
     return _spec()
